@@ -186,9 +186,11 @@ def array_family(thorough):
     for n, tags in ((0, []), (1, [0]), (3, [0, 0, 0]), (3, [0, 2, 0]),
                     (3, [2, 1, 2])):
         for out in outs:
-            for consts in ({}, {'c1': [2.5], 'c4': [1., 2., 3., 4.]}):
+            for consts in ({}, {'c1': [2.5], 'c4': [1., 2., 3., 4.]},
+                           {'c0': [], 'c200': [0.5 * i for i in range(200)]}):
                 fam.append(('one:n%d:%s:%s:%s' % (n, ''.join(map(str, tags)),
-                                                  out, bool(consts)),
+                                                  out, len(consts) and
+                                                  sorted(consts)[0]),
                             [('a', n, tags, props_small, out, consts)]))
     # every type x stride x default at once
     for n, tags in ((0, []), (3, [0, 2, 0])):
@@ -315,7 +317,7 @@ def run(ctx):
                samples=[dict(label=cases[(ctx.seed * 37 + 11) % len(cases)][0],
                              fmt='hdf5', detailed=False, only_real=True)],
                rule='array-list family (one array: 0/1/3 particles x 5 tag '
-                    'patterns x 4 output-list shapes x constants or none; '
+                    'patterns x 4 output-list shapes x constants (none; lengths 1 and 4; lengths 0 and 200); '
                     'all C types x stride {1,3} x default {0,3}; two arrays '
                     'with different property sets and constants; no arrays) '
                     'x {npz,hdf5} x compress x detailed_output x only_real, '
